@@ -371,7 +371,7 @@ def stream_operators(ctx: Ctx) -> Stream:
 	sess = Session(ctx)
 	hist: Counter[str] = Counter()
 	dl = Deadline(ctx, 15, 200)
-	for i in range(ctx.scale(10, 150)):
+	for i in range(ctx.scale(7, 150)):
 		if i >= 3 and dl.over():
 			break
 		g = c03_progs.ProgGen(random.Random(rng.random()))
@@ -1057,7 +1057,7 @@ PARTIAL = {
 	'assumed_of_callees (sound_lambda_param)': 'a callee applies a callback declared Callable[[A...], R] to values of the types A (hypothesis ArgsConf; the typing obligation of the callee body, exhibited by the recorder search which observes the parameters inside lambda bodies); discharged for immediate calls',
 	'assumed_of_user_code (user operators)': 'pyUserOpTy: an operator method returns a value of its declared type, and no class declares a REFLECTED method for class operands with another result type than the forward method (CPython asks a subclass operand first only through a reflected method); hierarchies are tree-shaped',
 	'assumed_of_user_code (WorldConf)': 'constructor / method / property / class-variable / __next__ results conform to their DECLARED types (each method body\'s own typing obligation; method bodies are typed statement by statement by sound_decl / sound_conf but not executed by the model)',
-	'still_false_on_the_code (known findings)': 'list-literal-class-dedup, dict-literal-empty-first-value, dict-get-missing-key, abs-of-bool, list-of-dict-items, boolop-nonbool-operands, tuple-slice-nonliteral-bounds, ternary-union-of-containers (each with a proved counterexample outside Core), min-max-mixed-numeric, union-of-subclasses-attribute, explicit-init-call, generic-method-on-indirect-subclass, generic-method-nested-type-argument, shift-reflected-user-operand (floats / user classes / lambdas are outside the model: corpus witness only), operator-operand-indirect-subclass, spread-first-type-argument (proved counterexamples); every one is generated at a low rate and replayed from corpus/C03 first',
+	'still_false_on_the_code (known findings)': 'list-literal-class-dedup, dict-literal-empty-first-value, dict-get-missing-key, abs-of-bool, list-of-dict-items, boolop-nonbool-operands, tuple-slice-nonliteral-bounds, ternary-union-of-containers (each with a proved counterexample outside Core), min-max-mixed-numeric, union-of-subclasses-attribute, explicit-init-call, generic-method-on-indirect-subclass, generic-method-nested-type-argument, shift-reflected-user-operand (floats / user classes / lambdas are outside the model: corpus witness only), spread-first-type-argument (proved counterexample); operator-operand-indirect-subclass is repaired (435b7a5: the translator reads operandBasesDirect = false, user_operator_full_when_repaired applies; operands up to five levels below the parameter class are ordinary generated forms, corpus 54); every one is generated at a low rate and replayed from corpus/C03 first',
 }
 
 ASSUMPTIONS = [
